@@ -7,7 +7,7 @@
 From Coq Require Import List NArith Bool.
 From NV Require Import Syntax.Token Syntax.Ast Syntax.StmtAst Syntax.StrEsc Syntax.Parser Syntax.Grammar
      Syntax.StrEscProofs Syntax.TypedPrinter Syntax.TypedPrinterProofs Syntax.FixedPoint
-     Syntax.TypeGrammar Syntax.StmtGrammar Syntax.DefEcho Syntax.Lexer Syntax.LexString Syntax.TypedPrinterSep.
+     Syntax.TypeGrammar Syntax.StmtGrammar Syntax.DefEcho Syntax.Lexer Syntax.LexString Syntax.TypedPrinterSep Syntax.FixedPointNeg Syntax.FixedPointNeg2 Syntax.TypedPrinterSugar Syntax.FixedPointSugar.
 Import ListNotations.
 Local Open Scope N_scope.
 
@@ -95,6 +95,32 @@ Theorem C15_definition_echo_partial : forall e : edef,
 Proof. exact echo_def_roundtrip. Qed.
 Print Assumptions C15_definition_echo_partial.
 
+(* The fixed point without the restriction on negative literals (`consistent_n`: names agree with the
+   session; a negative scalar literal, e.g. the exponent of `x⁻¹`, is allowed): the re-elaborated tree
+   is `nneg e` (the literal becomes a negation), and the printer gives it the same echo in every mode. *)
+Theorem C15_fixed_point_neg : forall (is_unit is_fn : str -> bool) (e : texpr),
+  printable_t e = true -> exact_t e = true -> consistent_n is_unit is_fn e = true ->
+  exists u, parse (pp e) = Ok [StExpr u] [] /\ pp (lift is_unit is_fn u) = pp e.
+Proof. exact echo_fixed_point_neg. Qed.
+Print Assumptions C15_fixed_point_neg.
+
+(* Temperature conversion functions in call syntax.  Since the repair of the echo the sugar forms
+   (`5 °C`, `x -> °C`) are printed only in plain positions (top level, call arguments, list / struct /
+   interpolation items, the left of `->`); as operands the functions are written as calls.
+   `okm true e` = no sugar-named one-argument call sits in a plain position (and no digit separators).
+   For these expressions the echo is read back as exactly the tree it was elaborated from, and the
+   echo is a fixed point (negative literals allowed). *)
+Theorem C15_roundtrip_exact_sugar : forall e : texpr,
+  printable_t e = true -> okm true e = true -> parse (pp e) = Ok [StExpr (erase e)] [].
+Proof. exact echo_roundtrip_exact_sugar. Qed.
+Print Assumptions C15_roundtrip_exact_sugar.
+
+Theorem C15_fixed_point_sugar : forall (is_unit is_fn : str -> bool) (e : texpr),
+  printable_t e = true -> okm true e = true -> consistent_n is_unit is_fn e = true ->
+  exists u, parse (pp e) = Ok [StExpr u] [] /\ pp (lift is_unit is_fn u) = pp e.
+Proof. exact echo_fixed_point_sugar. Qed.
+Print Assumptions C15_fixed_point_sugar.
+
 (* NOT PROVED (partial): (1) for the temperature sugar forms `reread e` equals `erase e` only up
    to numbat's elaboration of `x °C` / `x -> °C` (not modelled), and the fixed point is not proved
    for them; (2) statements (let/fn/unit/dimension/struct with types and decorators) and
@@ -105,18 +131,34 @@ Definition C15_full : Prop :=
   forall e : texpr, printable_t e = true ->
   exists u, parse (pp e) = Ok [StExpr u] [] /\ forall e', erase e' = u -> pp e' = pp e.
 
-(* The excluded class is real: the printer drops the parentheses of a sum (product) on the
-   right, so the echo is read back re-associated.  The values agree in exact arithmetic, the
-   trees do not; with the scalar-identifier fusion the echo is then not a fixed point (open
-   finding C15-product-reassociation-not-fixed-point, pinned by numbat's own test
-   typed_ast::tests::pretty_print_basic). *)
+(* The excluded class is real, and since the repair of the re-association findings it is small: the
+   printer drops the parentheses of a sum (product) on the right only in a chain of plain literals
+   (`2 + (3 + 4)` is echoed `2 + 3 + 4`, pinned by numbat's own test pretty_print_basic), which is read
+   back re-associated: same value up to rounding, another tree.  Every other sum / product on the right
+   keeps its parentheses and is inside the theorems above. *)
 Definition x_ (c : N) : texpr := XIdent [c].
 Theorem C15_reassociation_refuted :
   exists e, printable_t e = false
-    /\ parse (pp e) = Ok [StExpr (EBin Add (EBin Add (EIdent [97]) (EIdent [98])) (EIdent [99]))]%N []
-    /\ erase e = EBin Add (EIdent [97]) (EBin Add (EIdent [98]) (EIdent [99]))%N.
-Proof. exists (XBin Add (x_ 97) (XBin Add (x_ 98) (x_ 99))). vm_compute. repeat split; reflexivity. Qed.
+    /\ parse (pp e) = Ok [StExpr (EBin Add (EBin Add (EScalar [49]) (EScalar [50])) (EScalar [51]))]%N []
+    /\ erase e = EBin Add (EScalar [49]) (EBin Add (EScalar [50]) (EScalar [51]))%N.
+Proof.
+  exists (XBin Add (XScalar false [49]%N) (XBin Add (XScalar false [50]%N) (XScalar false [51]%N))).
+  vm_compute. repeat split; reflexivity.
+Qed.
 Print Assumptions C15_reassociation_refuted.
+
+(* the sum and the product of the two (former) findings keep their parentheses and are exact now:
+   -(2 s) + (2 s + min)   and   2000 * (pi * 2 m) *)
+Example C15_ex_reassociation_repaired :
+  let s2 := XBin Mul (XScalar false [50]%N) (XUnit [115]%N) in
+  let e1 := XBin Add (XNeg s2) (XBin Add s2 (XUnit [109; 105; 110]%N)) in
+  let e2 := XBin Mul (XScalar false [50; 48; 48; 48]%N) (XBin Mul (x_ 112) (XBin Mul (XScalar false [50]%N) (XUnit [109]%N))) in
+  printable_t e1 = true /\ exact_t e1 = true /\ parse (pp e1) = Ok [StExpr (erase e1)] []
+  /\ pp e1 = [TLParen; TMinus; TLParen; TNumber [50]; TIdent [115]; TRParen; TRParen; TPlus; TLParen; TNumber [50];
+              TIdent [115]; TPlus; TIdent [109; 105; 110]; TRParen]%N
+  /\ printable_t e2 = true /\ exact_t e2 = true /\ parse (pp e2) = Ok [StExpr (erase e2)] []
+  /\ pp e2 = [TNumber [50; 48; 48; 48]; TMultiply; TLParen; TIdent [112]; TMultiply; TNumber [50]; TIdent [109]; TRParen]%N.
+Proof. vm_compute. repeat split; reflexivity. Qed.
 
 (* ---- non-vacuity: the shapes that were echoed wrongly before the fixes *)
 Definition n_ (c : N) : texpr := XScalar false [c].
@@ -193,4 +235,25 @@ Example C15_ex_interpolated_string :
   /\ erase e = EInterp [PFixed [113; 34; 123]%N;
                         PExpr (EBin Add (EIdent [97]%N) (EScalar [49]%N)) (Some [58; 46; 50; 102]%N);
                         PFixed [10]%N; PExpr (EString [125]%N) None].
+Proof. vm_compute. repeat split; reflexivity. Qed.
+
+(* x⁻¹: the exponent is the literal -1; the echo x^(-1) is read back as a negation, whose echo is the same *)
+Example C15_ex_fixed_point_negative_literal :
+  let e := XBin Power (x_ 120) (XScalar true [49]%N) in
+  printable_t e = true /\ exact_t e = true /\ consistent_n (fun _ => false) (fun _ => false) e = true
+  /\ consistent (fun _ => false) (fun _ => false) e = false
+  /\ pp e = [TIdent [120]; TPower; TLParen; TMinus; TNumber [49]; TRParen]%N
+  /\ lift (fun _ => false) (fun _ => false) (erase e) = XBin Power (x_ 120) (XNeg (XScalar false [49]%N))
+  /\ pp (lift (fun _ => false) (fun _ => false) (erase e)) = pp e.
+Proof. vm_compute. repeat split; reflexivity. Qed.
+
+(* -from_celsius(5) + celsius(3 K): the conversion functions are operands, hence echoed as calls; the
+   expression is outside exact_t but inside okm, and its echo is exact; from_celsius(5) alone is echoed
+   as the sugar form and is outside okm *)
+Example C15_ex_sugar_in_call_syntax :
+  let fc := XCall n_from_celsius [n_ 53] in
+  let e := XBin Add (XNeg fc) (XCall n_celsius [XBin Mul (n_ 51) (XUnit [75]%N)]) in
+  exact_t e = false /\ okm true e = true /\ printable_t e = true
+  /\ parse (pp e) = Ok [StExpr (erase e)] []
+  /\ okm true fc = false /\ okm false fc = true.
 Proof. vm_compute. repeat split; reflexivity. Qed.
